@@ -1,4 +1,135 @@
 import Reduino.Lang.Layout
+import Reduino.Lemmas.C07
+/-
+  C07 — Every line is accounted for and stays in the block Python assigns it to.
+
+  `stripInlineComment` / `indentOf` are the character-level functions, `reduinoBlocks` what `_parse_simple_lines` makes of a
+  snippet, `pyBlocks` Python's own block rule on the same lines.  The full statement (`C07_statement`: the two always
+  agree) is FALSE of the current front end; the `…_counterexample` theorems exhibit the three mechanisms (known finding
+  K07a); proved part: agreement on `LayoutOK` scripts and the invariances listed in the property.
+-/
 namespace Reduino.Props.C07
-theorem stub : True := trivial
+open Reduino.Lang.Layout
+
+/-! ### character level -/
+
+/-- the result is the text itself, or the right-stripped prefix before a `#` of the text -/
+theorem strip_is_cut_at_hash (s : List Char) :
+    stripInlineComment s = s ∨ ∃ pre post, s = pre ++ '#' :: post ∧ stripInlineComment s = rstrip pre := by
+  sorry
+
+/-- text without `#` is returned unchanged; a `#` outside any quotes (no quote or backslash before it) cuts -/
+theorem strip_no_hash (s : List Char) (h : '#' ∉ s) : stripInlineComment s = s := by
+  sorry
+
+theorem strip_plain_prefix (pre post : List Char) (h : ∀ c ∈ pre, c ≠ '#' ∧ c ≠ '\'' ∧ c ≠ '"' ∧ c ≠ '\\') :
+    stripInlineComment (pre ++ '#' :: post) = rstrip pre := by
+  sorry
+
+/-- a `#` inside a double-quoted string literal (without escapes) does not cut -/
+theorem strip_hash_in_string (a b c : List Char)
+    (ha : ∀ x ∈ a, x ≠ '#' ∧ x ≠ '\'' ∧ x ≠ '"' ∧ x ≠ '\\') (hb : ∀ x ∈ b, x ≠ '"' ∧ x ≠ '\\')
+    (hc : ∀ x ∈ c, x ≠ '#' ∧ x ≠ '\'' ∧ x ≠ '"' ∧ x ≠ '\\') :
+    stripInlineComment (a ++ '"' :: b ++ '"' :: c) = a ++ '"' :: b ++ '"' :: c := by
+  sorry
+
+/-- indentation: `n` spaces count `n`, `n` tabs count `4 n`; scaling a space indentation by `k` scales the count -/
+theorem indentOf_spaces (n : Nat) (rest : List Char) (h : rest.head? ≠ some ' ' ∧ rest.head? ≠ some '\t') :
+    indentOf (List.replicate n ' ' ++ rest) = n ∧ indentOf (List.replicate n '\t' ++ rest) = 4 * n := by
+  sorry
+
+/-! ### block structure -/
+
+/-- the property as stated: the front end's blocks are Python's -/
+def C07_statement : Prop := ∀ ls : List Line, reduinoBlocks ls = pyBlocks ls
+
+/-- the layouts on which the front end is right: comment-only lines are indented deeper than every header that is still
+    open (stated simply: deeper than the nearest preceding header… we use the stronger, easily checked condition that a
+    comment line has the indentation of the NEXT code line and that next line is not a continuation header), and no
+    continuation header carries a trailing comment -/
+def nextCode : List Line → Option Line
+  | [] => none
+  | l :: rest => if l.kind = .blank ∨ l.kind = .comment then nextCode rest else some l
+
+def isCont (l : Line) : Bool := l.kind = .header .elifH || l.kind = .header .elseH || l.kind = .header .exceptH
+
+def LayoutOK : List Line → Bool
+  | [] => true
+  | l :: rest =>
+    (if l.kind = .comment then
+       (match nextCode rest with
+        | some n => l.indent = n.indent && !isCont n
+        | none => false)
+     else true) &&
+    (if isCont l then !l.trailing else true) && LayoutOK rest
+
+mutual
+/-- no silently dropped line anywhere in the tree -/
+def clean : Tree → Bool
+  | .leaf _ => true
+  | .dropped _ => false
+  | .node _ _ cs => cleanList cs
+def cleanList : List Tree → Bool
+  | [] => true
+  | t :: ts => clean t && cleanList ts
+end
+
+/-- removing blank lines never changes what the front end sees -/
+theorem blank_lines_invisible (ls : List Line) :
+    reduinoBlocks (ls.filter (·.kind ≠ .blank)) = reduinoBlocks ls := by
+  sorry
+
+/-- on `LayoutOK` scripts comment-only lines are invisible too -/
+theorem comment_lines_invisible (ls : List Line) (h : LayoutOK ls = true) :
+    reduinoBlocks (pyLines ls) = reduinoBlocks ls := by
+  sorry
+
+/-- scaling every indentation by `k ≥ 1` (indent unit) changes nothing -/
+theorem indent_scaling_invisible (ls : List Line) (k : Nat) (hk : 1 ≤ k) :
+    reduinoBlocks (ls.map fun l => { l with indent := k * l.indent }) = reduinoBlocks ls := by
+  sorry
+
+/-- trailing comments on simple statements and on block-opening headers (if/while/for/try — inside
+    `_parse_simple_lines`) are invisible -/
+theorem trailing_on_noncontinuation_invisible (ls : List Line) :
+    reduinoBlocks (ls.map fun l => if isCont l then l else { l with trailing := false }) = reduinoBlocks ls := by
+  sorry
+
+/-- proved part: on code free of blank/comment lines and of trailing comments on continuation headers, the front end's
+    forest is Python's -/
+theorem blocks_eq_py_partial (ls : List Line) (hcode : ∀ l ∈ ls, l.kind ≠ .blank ∧ l.kind ≠ .comment)
+    (htr : ∀ l ∈ ls, isCont l = true → l.trailing = false)
+    (hwf : ∀ fuel, cleanList (nested fuel ls) = true) :
+    reduinoBlocks ls = pyBlocks ls := by
+  sorry
+
+/-! ### the three mechanisms by which the full statement fails (known finding K07a) -/
+
+theorem trailing_comment_on_else_counterexample :
+    let ls : List Line := [⟨0, .header .ifH, false, 1⟩, ⟨4, .simple, false, 2⟩, ⟨0, .header .elseH, true, 3⟩, ⟨4, .simple, false, 4⟩]
+    reduinoBlocks ls ≠ pyBlocks ls := by
+  sorry
+
+theorem dedented_comment_counterexample :
+    let ls : List Line := [⟨0, .header .whileH, false, 1⟩, ⟨4, .simple, false, 2⟩, ⟨0, .comment, false, 0⟩, ⟨4, .simple, false, 3⟩]
+    reduinoBlocks ls ≠ pyBlocks ls := by
+  sorry
+
+theorem comment_before_else_counterexample :
+    let ls : List Line := [⟨0, .header .ifH, false, 1⟩, ⟨4, .simple, false, 2⟩, ⟨0, .comment, false, 0⟩, ⟨0, .header .elseH, false, 3⟩, ⟨4, .simple, false, 4⟩]
+    reduinoBlocks ls ≠ pyBlocks ls := by
+  sorry
+
+/-- top level: a trailing comment on `while True:` empties the main loop -/
+theorem trailing_comment_on_main_loop_counterexample :
+    let ls : List Line := [⟨0, .simple, false, 1⟩, ⟨0, .header .whileTrue, true, 9⟩, ⟨4, .simple, false, 2⟩]
+    (reduinoProgram ls).loop = [] ∧ (reduinoProgram (ls.map fun l => { l with trailing := false })).loop ≠ [] := by
+  sorry
+
+theorem C07_statement_false : ¬ C07_statement := by
+  sorry
+
+example : LayoutOK [⟨0, .header .ifH, true, 1⟩, ⟨4, .comment, false, 0⟩, ⟨4, .simple, true, 2⟩, ⟨0, .header .elseH, false, 3⟩, ⟨4, .simple, false, 4⟩] = true := by
+  sorry
+
 end Reduino.Props.C07
